@@ -132,6 +132,19 @@ def _flag_mask(e):
     return None
 
 
+def _validity_eq(e):
+    """(variant name, the DataLengthValidity::new call, is `!=`) for `new(..) == DataLengthValidity::X` conditions, else None"""
+    if e[0] != "call" or not e[1].endswith(("PartialEq>::eq", "PartialEq>::ne")) or len(e[2]) != 2:
+        return None
+    a, b = e[2]
+    a = a[1] if a[0] == "ref" else a
+    b = b[1] if b[0] == "ref" else b
+    for x, y in ((a, b), (b, a)):
+        if x[0] == "call" and x[1] == "length::DataLengthValidity::new" and y[0] == "agg" and y[1].startswith("adt:length::DataLengthValidity::") and not y[2]:
+            return y[1].rsplit("::", 1)[-1], x, e[1].endswith("::ne")
+    return None
+
+
 def finalize_model(F):
     """Classify every returning path of inner Generator::finalize_with_options."""
     bs = F.method("finalize_with_options", "generate::inner::Generator<")
@@ -173,6 +186,11 @@ def finalize_model(F):
                     ev.append(("validity", "not:" + ",".join(sorted(names.get(v, str(v)) for v in vals)), e))
                 else:
                     ev.append(("validity", names.get(taken, str(taken)), e))
+            elif _validity_eq(e) is not None and truth is not None:
+                # `validity == DataLengthValidity::X` (derived PartialEq) is the same decision as a `match` arm
+                vname, callnew, is_ne = _validity_eq(e)
+                same = truth != is_ne
+                ev.append(("validity", vname if same else "not:" + vname, ("discr", callnew)))
             elif e[0] == "call" and (e[1].endswith("::contains") or e[1].endswith("::intersects")) and "GeneratorFlags" in e[1]:
                 recv = match(("ref", ("field", ("deref", P(2)), V("f"))), e[2][0])
                 mask = _flag_mask(e[2][1])
